@@ -13,8 +13,8 @@ git apply $src/patch.diff || { echo "RESULT $name: patch does not apply"; exit 1
 out=$(CARGO_TARGET_DIR=$W/target cargo test --workspace --no-fail-fast --offline 2>&1)
 pass=$(echo "$out" | grep -E "^test result" | awk '{s+=$4} END {print s}'); fail=$(echo "$out" | grep -E "^test result" | awk '{s+=$6} END {print s}')
 CARGO_TARGET_DIR=$W/target cargo build --release --offline -q 2>&1 | tail -2
-sh $src/demo.sh $W/target-orig/release/breadlog > /tmp/wt/confirm_demo_orig.txt 2>&1; d0=$?
-sh $src/demo.sh $W/target/release/breadlog > /tmp/wt/confirm_demo_mut.txt 2>&1; d1=$?
+bash $src/demo.sh $W/target-orig/release/breadlog > /tmp/wt/confirm_demo_orig.txt 2>&1; d0=$?
+bash $src/demo.sh $W/target/release/breadlog > /tmp/wt/confirm_demo_mut.txt 2>&1; d1=$?
 git checkout -q -- . ; git clean -qfd -e target -e target-orig
 echo "RESULT $name: tests passed=$pass failed=$fail demo(original)=$d0 demo(mutant)=$d1"
 if [ "$pass" = "223" ] && [ "$fail" = "0" ] && [ $d0 -eq 0 ] && [ $d1 -eq 1 ]; then
